@@ -855,6 +855,9 @@ impl TransactionBuilder {
                 )));
             }
             self.collateral_return = Some(return_output);
+        } else {
+            // nothing is left to return: a return output set by an earlier call would be stale
+            self.collateral_return = None;
         }
         self.set_total_collateral(total_collateral);
 
